@@ -5,7 +5,7 @@ another wave file stored before it, anything after it)."""
 import io
 from fractions import Fraction
 from vlib import coqlit as L
-from C18_hist import _wav_samples, _zl
+from C18_hist import _wav_samples, _zl, wav_rate, max_rate
 
 SKINDS = {"name": "SName", "file": "SFile", "bytesio": "SBytesIO", "pipe": "SPipe", "readonly": "SReadOnly"}
 
@@ -24,7 +24,7 @@ def _wav_bytes(fd):
 def _file(rng, nfr=None):
   bits = rng.choice([8, 16, 24, 32]); ch = rng.choice([1, 2])
   n = ch * (rng.choice([0, 1, 2, 3, 5, 8]) if nfr is None else nfr)
-  return {"bits": bits, "channels": ch, "rate": rng.choice([8000, 11025, 22050, 44100, 48000, 96000]),
+  return {"bits": bits, "channels": ch, "rate": wav_rate(rng, bits, ch),
           "samples": _wav_samples(bits, n, rng)}
 
 
@@ -36,11 +36,11 @@ def gen_wavsrc(tier, rng):
         for ch in (1, 2):
           # what is stored before the file: nothing, another (different) wave file, junk bytes
           for pre in (("none",) if kind == "name" else ("none", "wave", "junk")):
-            main = _file(rng); main["bits"] = bits; main["channels"] = ch
+            main = _file(rng); main["bits"] = bits; main["channels"] = ch; main["rate"] = wav_rate(rng, bits, ch)
             main["samples"] = _wav_samples(bits, ch * rng.choice([0, 1, 2, 3, 5, 8]), rng)
             prefix = {"none": None, "wave": _file(rng), "junk": [rng.randrange(256) for _ in range(rng.choice([1, 3, 44, 50]))]}[pre]
             if pre == "wave" and prefix["rate"] == main["rate"]:
-              prefix["rate"] += 1
+              prefix["rate"] += 1 if prefix["rate"] < max_rate(prefix["bits"], prefix["channels"]) else -1
             suffix = None if kind == "name" else rng.choice([None, _file(rng), [rng.randrange(256) for _ in range(5)]])
             yield {"kind": kind, "keep": rng.random() < 0.6, "main": main, "prefix": prefix, "suffix": suffix,
                    "tags": ["kind=" + kind, "bits=%d" % bits, "ch=%d" % ch, "prefix=" + pre]}
